@@ -176,6 +176,7 @@ func run(args []string) {
 		p.Prepare(ops)
 	}
 	seen := map[uint64]bool{}
+	perKey := map[string]int{}
 	sr := rand.New(rand.NewSource(*seed + 7))
 	for i, op := range ops {
 		res := safeExec(p, op)
@@ -198,7 +199,10 @@ func run(args []string) {
 			}
 		}
 		if res.Viol != "" {
-			if len(rep.Violations) < 50 {
+			// keep the first few violations of EVERY distinct key, so that a new kind of
+			// violation cannot hide behind many instances of a known finding
+			perKey[res.Key]++
+			if perKey[res.Key] <= 5 && len(rep.Violations) < 1000 {
 				rep.Violations = append(rep.Violations, violation{i, op, res.Key, res.Viol, res.Out})
 			}
 			rep.Dist["violation"]++
